@@ -2,7 +2,7 @@
 From NsyncBase Require Import CSem.
 From NsyncGen Require Import Consts Sites.
 From NsyncModel Require Import MuModel MuSpec MuXferModel.
-From NsyncProof Require Import MuProof MuProof2 MuXferProof MuXferProof2 MuXferProof3 MuXferProof4 MuXferProof5 MuXferProof6 MuXferProof7.
+From NsyncProof Require Import MuProof MuProof2 MuXferProof MuXferProof2 MuXferProof3 MuXferProof4 MuXferProof5 MuXferProof6 MuXferProof7 MuXferProofG.
 From Coq Require Import List ZArith Lia.
 Import ListNotations.
 Local Open Scope Z_scope.
@@ -146,12 +146,12 @@ Qed.
 Lemma record_kinds : forall progs sched p,
   Z.of_nat (length progs) < 2 ^ 24 - 1 ->
   let xw := xrun (xinit progs) sched in
-  nrec xw p = true ->
+  xn_rec (x_pc (xget xw p)) = true ->
   ~ In p (queue (mw xw)) /\ (forall u, ~ In p (wake_of (t_pc (get (mw xw) u)))) /\ wphase (x_pc (xget xw p)) = false /\
   xaf xw p = false.
 Proof.
   intros progs sched p H xw NR. destruct (xreachable_all progs sched H) as (HI & _ & HP & _). fold xw in HI, HP.
-  destruct HP as (HM & _). unfold nrec in NR.
+  destruct HP as (HM & _).
   assert (cvs xw p = true) as Cp by (unfold cvs; rewrite NR; apply orb_true_r).
   pose proof (cvs_not_slp _ xw p HI Cp) as Sp. destruct HM as (_ & Hq & _ & Hw & _).
   split; [|split; [|split]].
@@ -190,9 +190,28 @@ Lemma wake_head_native : forall progs sched t k f,
   nrec xw f = false /\ wph2 (x_pc (xget xw f)) = true /\ xferred xw f = false /\ waiting (mw xw) f = true.
 Proof.
   intros progs sched t k f H xw Pc Hd. destruct (xreachable_all progs sched H) as (_ & _ & HP & _). fold xw in HP.
-  destruct HP as (_ & HC & _ & HN).
+  destruct HP as (_ & HC & _ & HN). destruct (xreachable_gi progs sched H) as [HG _]. fold xw in HG.
   assert (vhd (x_pc (xget xw t)) = Some f) as Hv by (destruct Pc as [-> | [old ->]]; exact Hd).
-  pose proof (HN t f Hv) as NR. destruct (vhd_in _ _ Hv) as [Hin _]. fold (kws xw t) in Hin.
+  pose proof (HN t f Hv) as NR. pose proof (HG t f Hv) as GR. destruct (vhd_in _ _ Hv) as [Hin _]. fold (kws xw t) in Hin.
   destruct HC as (_ & _ & _ & Hw & _). destruct (Hw t f Hin) as (Wf & Cf & _).
-  destruct (cvs_native xw f Cf NR) as [W2 Xf]. auto.
+  destruct (cvs_native xw f Cf NR) as [W2 Xf]. unfold nrec. rewrite NR, GR. auto.
+Qed.
+
+(* a generic-interface waiter (cv_mu == NULL) is never transferred: it is not marked, it is not on the mutex queue nor on the
+   wake list of a releaser; it re-acquires through its caller's lock routine *)
+Lemma generic_never_transferred : forall progs sched p,
+  Z.of_nat (length progs) < 2 ^ 24 - 1 ->
+  let xw := xrun (xinit progs) sched in
+  xg_rec (x_pc (xget xw p)) = true ->
+  xferred xw p = false /\ ~ In p (queue (mw xw)) /\ (forall u, ~ In p (wake_of (t_pc (get (mw xw) u)))).
+Proof.
+  intros progs sched p H xw GR. destruct (xreachable_all progs sched H) as (HI & _ & HP & _). fold xw in HI, HP.
+  destruct (xreachable_gi progs sched H) as [_ HV]. fold xw in HV. pose proof (HV p GR) as Xp.
+  destruct HP as (HM & _).
+  assert (wph2 (x_pc (xget xw p)) = true) as W2 by (destruct (x_pc (xget xw p)); try discriminate GR; reflexivity).
+  assert (cvs xw p = true) as Cp by (unfold cvs; rewrite W2, Xp; reflexivity).
+  pose proof (cvs_not_slp _ xw p HI Cp) as Sp. destruct HM as (_ & Hq & _ & Hw & _).
+  split; [exact Xp|]. split.
+  - intros Hin. destruct (Hq p Hin) as [_ X]. congruence.
+  - intros u Hin. rewrite wake_of_wl in Hin. destruct (Hw u p Hin) as (_ & X & _). congruence.
 Qed.
